@@ -47,11 +47,27 @@ func sessPESFor(id string) func(c CaseC11, a *hx.Arena) (hx.SessionRun, *hx.Fail
 				if !ref.PESHasOptionalHeader(p.StreamID) || p.StreamID == 0xBC {
 					return nil
 				}
-				if p.PTSDTS != 0 && h.HasPTS() && h.PTS() != p.PTS {
-					return hx.Failf("pes-pts", "PTS() = %d, the header carries %d", h.PTS(), p.PTS)
+				// the two time stamps are read in either order (the order alternates between re-checks)
+				checkPTS := func() *hx.Failure {
+					if p.PTSDTS != 0 && h.HasPTS() && h.PTS() != p.PTS {
+						return hx.Failf("pes-pts", "PTS() = %d, the header carries %d", h.PTS(), p.PTS)
+					}
+					return nil
 				}
-				if p.PTSDTS == 3 && h.HasDTS() && h.DTS() != p.DTS {
-					return hx.Failf("pes-dts", "DTS() = %d, the header carries %d", h.DTS(), p.DTS)
+				checkDTS := func() *hx.Failure {
+					if p.PTSDTS == 3 && h.HasDTS() && h.DTS() != p.DTS {
+						return hx.Failf("pes-dts", "DTS() = %d, the header carries %d", h.DTS(), p.DTS)
+					}
+					return nil
+				}
+				order := []func() *hx.Failure{checkPTS, checkDTS}
+				if (c.CC+n)%2 == 0 {
+					order = []func() *hx.Failure{checkDTS, checkPTS, checkDTS}
+				}
+				for _, fn := range order {
+					if f := fn(); f != nil {
+						return f
+					}
 				}
 				return nil
 			}
@@ -192,6 +208,22 @@ func sessPMTFor(id string) func(c CaseC14, a *hx.Arena) (hx.SessionRun, *hx.Fail
 					}
 				}
 				return nil
+			}
+			if f := probe(); f != nil {
+				return hx.SessionRun{}, f
+			}
+			// the query follows the PMT when streams are removed from it: the remaining streams keep their answers
+			if len(m.Streams) >= 2 {
+				pmt2, err2 := psi.NewPMT(clone(payload))
+				if err2 == nil {
+					pmt2.IsPidForStreamWherePresentationLagsEbp(m.Streams[len(m.Streams)-1].PID) // (a first query before the removal)
+					pmt2.RemoveElementaryStreams([]int{m.Streams[0].PID})
+					for _, s := range m.Streams[1:] {
+						if got := pmt2.IsPidForStreamWherePresentationLagsEbp(s.PID); got != c20Lag[int(s.StreamType)] {
+							return hx.SessionRun{}, hx.Failf("lag-query-after-removal", "after removing the first stream IsPidForStreamWherePresentationLagsEbp(%d) = %v for stream_type %#x", s.PID, got, s.StreamType)
+						}
+					}
+				}
 			}
 			return hx.SessionRun{Probes: []hx.Probe{probe}}, nil
 		}
